@@ -86,6 +86,9 @@ class Reporter:
         n_viol = 0
         seen_known = []
         os.makedirs(os.path.join(REPLAY_DIR, self.pid), exist_ok=True)
+        for old in os.listdir(os.path.join(REPLAY_DIR, self.pid)):
+            if old.endswith(".json"):
+                os.remove(os.path.join(REPLAY_DIR, self.pid, old))
         for sig in sorted(groups, key=lambda s: (str(s[0]), str(s[1]))):
             vs = groups[sig]
             if sig in open_k:
